@@ -5,7 +5,7 @@ META = dict(
     level="proof",
     claim="Bit-field reads return exactly the field's bits (zero/sign extended), bit-field writes replace exactly those bits of the storage unit and no other bit or byte, for every storage size, signedness, position, width, address, memory content and value; scalar loads/stores touch exactly the object's bytes (shared with C01.4). Real gen_expr/gen_addr/load/store on the ghost byte memory, recursive contract.",
     note="Trusted: CBMC, ghost x86 machine, the layout invariant of C08 as precondition. Also: whole-aggregate assignment and zero fill write exactly the object's bytes (per size), and the local frame layout is overlap-free and aligned (3 locals, bounded). Not covered in this revision: member lookup through anonymous aggregates, VLA/alloca, pointer arithmetic scaling.",
-    functions=["codegen.c:gen_expr", "codegen.c:gen_addr", "codegen.c:load", "codegen.c:store", "codegen.c:push", "codegen.c:pop", "codegen.c:assign_lvar_offsets", "codegen.c:align_to"],
+    functions=["codegen.c:gen_expr", "codegen.c:gen_addr", "codegen.c:load", "codegen.c:store", "codegen.c:push", "codegen.c:pop", "codegen.c:assign_lvar_offsets", "codegen.c:align_to", "parse.c:new_add", "parse.c:new_sub"],
     trusted_base=["CBMC 6.11", "spec/x86_ghost.h"],
     assumptions=["the pointer operand and the assigned value are abstract side-effect-free expressions"],
 )
@@ -23,6 +23,10 @@ def jobs(tier):
     for sz in (1, 5, 8, 24):
         js.append(Job(name=f"memzero-{sz}", src="aggcopy.c", group="C04.3 zero fill", defs={"SZ": str(sz), "MEMZERO": "1"}, units=["type.c"], mode="dfcc", enforce="gen_expr", rec=True, replace=["gen_stmt"],
                       cut=["error", "error_tok", "error_at", "warn_tok"], no_checks=["signed-overflow", "undefined-shift"], timeout=400, replay=None, sample=f"ND_MEMZERO of a {sz}-byte local"))
+    for opn, nm in ((0, "add"), (1, "sub"), (2, "diff")):
+        js.append(Job(name=f"ptrarith-{nm}", src="../C01/ptrarith.c", group="C04 pointer arithmetic scaling", defs={"OPN": str(opn)}, units=["type.c", "hashmap.c", "strings.c"], mode="plain",
+                      cut=["error", "error_tok", "error_at", "warn_tok"], havoc=["format"], cut_defined=["rehash"], timeout=180, unwind=20, replay=None,
+                      sample=f"pointer {'+' if opn == 0 else '-'} scaling incl. VLA rows"))
     for (a0, a1, a2) in ((1, 4, 8), (8, 1, 2), (16, 1, 4), (2, 32, 1)):
         js.append(Job(name=f"frame-{a0}-{a1}-{a2}", src="frame.c", group="C04.5 frame layout", defs={"A0": str(a0), "A1": str(a1), "A2": str(a2)}, unwind=12,
                       bounded="3 locals per function", sample=f"assign_lvar_offsets: three locals with alignments {a0},{a1},{a2}, symbolic sizes", **PL))
